@@ -94,6 +94,15 @@ def getLOp {α : Type} (item : Json → Except String α) (j : Json) : Except St
   | "extend" => .extend <$> items
   | "del" => .del <$> getNat j "i"
   | "clear" => pure .clear
+  | "insert" => do
+    let i ← (← j.getObjVal? "i").getInt?
+    pure (.insert i (← one))
+  | "pop" => do
+    let i ← (← j.getObjVal? "i").getInt?
+    pure (.pop i)
+  | "remove" => .remove <$> one
+  | "delSlice" => do pure (.delSlice (← getNat j "a") (← getOptNat j "b"))
+  | "reverse" => pure .reverse
   | "assignSelf" => pure .assignSelf
   | "iaddAttr" => .iaddAttr <$> items
   | _ => throw s!"unknown filter list operation {o}"
@@ -139,6 +148,7 @@ def errName : Err → String
   | .read => "ReadError"
   | .regex => "re.error"
   | .index => "IndexError"
+  | .value => "ValueError"
   | .runtime => "RuntimeError"
   | .internal w => "internal:" ++ w
 
